@@ -44,6 +44,9 @@ type emitter struct {
 	implicit map[types.Object]ast.Expr
 	nDef     int
 	nMulti   int
+
+	inlineDepth int
+	inlining    map[*FuncInfo]bool
 }
 
 var emitPrims = map[string]bool{
@@ -88,7 +91,7 @@ func newEmitter(c *Ctx, fi *FuncInfo) *emitter {
 }
 
 func (e *emitter) run() []emNode {
-	return e.block(e.fi.Decl.Body.List)
+	return normalize(e.block(e.fi.Decl.Body.List), true)
 }
 
 func (e *emitter) block(list []ast.Stmt) []emNode {
@@ -344,6 +347,11 @@ func (e *emitter) call(call *ast.CallExpr) []emNode {
 		e.sites++
 		return e.concat(call.Args[0])
 	}
+	// in-module helper (not one of the modelled emitters) that emits or touches the
+	// name tables: interpreted in place with its parameters bound to the arguments
+	if cf := e.c.FnOf(fi.callee(call)); e.canInline(cf) && (e.c.emits(cf) || e.c.touchesTables(cf, e.tracked)) {
+		return e.inline(cf, call)
+	}
 	// in-module callee that itself emits: keep as a CALL node
 	if cf := e.c.FnOf(fi.callee(call)); cf != nil && e.c.emits(cf) {
 		var args []string
@@ -424,11 +432,7 @@ func (e *emitter) format(f ast.Expr, args []ast.Expr, _ string) []emNode {
 		e.issues = append(e.issues, "non-constant format string at "+e.c.Pos(f.Pos()))
 		return []emNode{&emTok{[]string{"⟨FORMAT:" + e.sym(f) + "⟩"}}}
 	}
-	var syms []string
-	for _, a := range args {
-		syms = append(syms, e.sym(a))
-	}
-	return []emNode{&emTok{tokenize(s, syms)}}
+	return e.formatArgs(s, args, nil)
 }
 
 // tokenize splits a format string into generated-code tokens; verbs are
